@@ -123,6 +123,39 @@ func CheckC02(c *Ctx) {
 			c.Distinct.Add(HashBytes(vi, list[i]))
 		})
 	}
+	// every Modified metric written as an explicit copy of its base metric: all base vectors of v3.x, a seeded 1/8 of v4's
+	for vi, api := range probe.APIs {
+		api, vi := api, vi
+		v := api.Ver
+		if v.ID == spec.V20 {
+			continue
+		}
+		total, nb := 1, 0
+		for _, me := range v.Metrics {
+			if me.Mandatory {
+				nb++
+				total *= len(me.Values)
+			}
+		}
+		stride := 1
+		if v.ID == spec.V40 {
+			stride = c.Pick(8, 1)
+		}
+		off := c.Rand("explicit-copy", v.Name).Intn(stride)
+		c.Parallel("explicit-copy-"+v.Name, (total-off+stride-1)/stride, 256, func(w *Worker, k int) {
+			i := off + k*stride
+			a := v.ZeroAssign()
+			for m := 0; m < nb; m++ {
+				n := len(v.Metrics[m].Values)
+				a[m] = uint8(i % n)
+				i /= n
+			}
+			explicitCopy(v, a)
+			objCase(w, api, a, k%NStyles)
+			c.Distinct.Add(HashBytes(vi, a) ^ 0x7777)
+			w.Count("explicit-copy-objects")
+		})
+	}
 	// corners of the packed representation (highest / lowest code in every field) and everything one or two metrics away
 	for vi, api := range probe.APIs {
 		api, vi := api, vi
